@@ -164,11 +164,14 @@ def gaussian_syn_likelihood_ghurye_olkin(ssx, ssy):
 
     try:
         _, logdet_sigma = np.linalg.slogdet(Sigma)
-        _, logdet_psi = np.linalg.slogdet(psi)
+        sign_psi, logdet_psi = np.linalg.slogdet(psi)
         A = wcon(d, n-2) - wcon(d, n-1) - 0.5*d*math.log(1 - 1/n)
         B = -0.5 * (n-d-2) * (d*math.log(n-1) + logdet_sigma)
         C = 0.5 * (n-d-3) * logdet_psi
         loglik = -0.5*d*math.log(2*math.pi) + A + B + C
+        if sign_psi <= 0:
+            # psi is not positive definite: the estimator is zero
+            loglik = -math.inf
     except np.linalg.LinAlgError:
         logger.warning('Unable to compute logpdf due to poor sample cov.')
         loglik = -math.inf
